@@ -1,6 +1,7 @@
 package props
 
 import (
+	"encoding/base64"
 	"fmt"
 	"math/big"
 	"regexp"
@@ -150,6 +151,19 @@ func (t *c05type) member(s string) bool {
 			}
 		}
 		return true
+	case "binary":
+		raw, err := base64.StdEncoding.DecodeString(s)
+		if err != nil {
+			return false
+		}
+		n := new(big.Rat).SetInt64(int64(len(raw)))
+		lo, hi := baseBounds("string", 0)
+		for _, l := range t.levels {
+			if l.length != "" && !inIvls(n, parseRange(l.length, lo, hi)) {
+				return false
+			}
+		}
+		return true
 	case "string":
 		n := new(big.Rat).SetInt64(int64(utf8.RuneCountInString(s)))
 		lo, hi := baseBounds("string", 0)
@@ -176,6 +190,13 @@ func (t *c05type) member(s string) bool {
 	}
 	if t.base != "decimal64" && !v.IsInt() {
 		return false
+	}
+	if t.base == "decimal64" {
+		// the value space has fraction-digits digits after the point and no more
+		scale := new(big.Rat).SetInt(new(big.Int).Exp(big.NewInt(10), big.NewInt(int64(t.fd)), nil))
+		if !new(big.Rat).Mul(v, scale).IsInt() {
+			return false
+		}
 	}
 	for _, l := range t.levels {
 		if l.rng != "" && !inIvls(v, parseRange(l.rng, lo, hi)) {
@@ -271,7 +292,7 @@ var patternCatalog = []c05pat{{"[a-z]+", false}, {"[0-9]{2}", false}, {"a.*", fa
 
 func genC05Type(c *core.Ctx, idx int) *c05type {
 	r := c.Rand
-	bases := []string{"int8", "uint8", "int16", "uint16", "int32", "uint32", "int64", "uint64", "decimal64", "string", "string", "string", "enumeration", "bits", "identityref"}
+	bases := []string{"int8", "uint8", "int16", "uint16", "int32", "uint32", "int64", "uint64", "decimal64", "string", "string", "string", "enumeration", "bits", "identityref", "binary"}
 	t := &c05type{base: bases[idx%len(bases)], list: idx%4 == 3}
 	nlev := 1 + r.Intn(3)
 	switch t.base {
@@ -299,7 +320,12 @@ func genC05Type(c *core.Ctx, idx int) *c05type {
 	}
 	for i := 0; i < nlev; i++ {
 		var l c05level
-		if t.base == "string" {
+		if t.base == "binary" {
+			// length of a binary is counted in octets
+			if r.Intn(4) != 0 {
+				l.length = lengthCatalog[r.Intn(len(lengthCatalog))]
+			}
+		} else if t.base == "string" {
 			if r.Intn(2) == 0 {
 				l.length = lengthCatalog[r.Intn(len(lengthCatalog))]
 			}
@@ -326,6 +352,12 @@ func (t *c05type) candidates(c *core.Ctx) []string {
 	case "identityref":
 		// base-id is the base, not one of the identities derived from it; id-o derives from other-base only
 		return []string{"id-a", "id-b", "id-ab", "id-c", "id-o", "base-id", "other-base", "m:id-a", "m:id-ab", "m:base-id", "id-", "ID-A", "nope"}
+	case "binary":
+		var out []string
+		for _, raw := range []string{"", "a", "ab", "abc", "abcd", "abcde", "abcdef", "\x00\xff", "é", "\x00\x00\x00", strings.Repeat("x", 300)} {
+			out = append(out, base64.StdEncoding.EncodeToString([]byte(raw)))
+		}
+		return append(out, "!!!", "YQ", "YWJj YWJj")
 	case "string":
 		out := []string{"", "a", "ab", "abc", "abcd", "abcde", "abcdef", "z", "az", "xxabxx", "abz", "12", "123", "a1", "é", "éé", "ééé", "世世世世", "世", "y", "xyy", "cdab", "abab", "b", "A", " ", "aé世", strings.Repeat("a", 300),
 			"on", "off", "only", "onoff", "takeoff", "10ms", "10s", "never", "whenever", "x10s", "10ms or so", "cd", "abx", "xz", "zebra"}
@@ -365,6 +397,10 @@ func (t *c05type) candidates(c *core.Ctx) []string {
 	add(big.NewRat(0, 1))
 	add(big.NewRat(1, 1))
 	add(big.NewRat(-1, 1))
+	if t.base == "decimal64" {
+		add(new(big.Rat).Add(big.NewRat(1, 1), new(big.Rat).Quo(step, big.NewRat(2, 1))))
+		add(new(big.Rat).Quo(step, big.NewRat(4, 1)))
+	}
 	for _, l := range t.levels {
 		if l.rng == "" {
 			continue
@@ -376,6 +412,12 @@ func (t *c05type) candidates(c *core.Ctx) []string {
 				add(new(big.Rat).Sub(b, step))
 				add(new(big.Rat).Add(b, big.NewRat(1000, 1)))
 				add(new(big.Rat).Sub(b, big.NewRat(1000, 1)))
+				if t.base == "decimal64" {
+					// one digit more than the type has
+					half := new(big.Rat).Quo(step, big.NewRat(2, 1))
+					add(new(big.Rat).Add(b, half))
+					add(new(big.Rat).Sub(b, half))
+				}
 			}
 			mid := new(big.Rat).Add(iv.lo, iv.hi)
 			mid.Quo(mid, big.NewRat(2, 1))
@@ -543,6 +585,9 @@ func (p c05) Run(c *core.Ctx, idx int) {
 			if (path == "set-typed" || path == "node" || path == "node-into") && (t.base == "enumeration" || t.base == "bits" || t.base == "identityref") {
 				continue // membership of labels is decided while converting; typed values carry what the caller built
 			}
+			if (path == "set-typed" || path == "node" || path == "node-into") && t.base == "binary" && restrictionClass(t, cand) == "not-base64" {
+				continue // likewise: a typed binary whose text is no base64 is the caller's construction
+			}
 			root := dp.NewDNode(nil)
 			cn := dp.NewDNode(cs)
 			root.Kids["c"] = cn
@@ -702,6 +747,14 @@ func restrictionClass(t *c05type, cand string) string {
 	switch t.base {
 	case "enumeration", "bits", "identityref":
 		return "label"
+	case "binary":
+		if _, err := base64.StdEncoding.DecodeString(cand); err != nil {
+			return "not-base64"
+		}
+		if t.member(cand) {
+			return "member"
+		}
+		return "length-in-octets"
 	case "string":
 		n := new(big.Rat).SetInt64(int64(utf8.RuneCountInString(cand)))
 		lo, hi := baseBounds("string", 0)
@@ -767,7 +820,7 @@ func restrictionClass(t *c05type, cand string) string {
 func goValue(t *c05type, l *dp.LVal) interface{} {
 	one := func(s string) interface{} {
 		switch t.base {
-		case "string", "enumeration", "bits", "identityref":
+		case "string", "enumeration", "bits", "identityref", "binary":
 			return s
 		case "decimal64":
 			f, _ := strconv.ParseFloat(s, 64)
